@@ -1,13 +1,16 @@
 (* C11 — correspondence and property evaluation on logs observed on the
    implementation under forced schedules.  Executable only.
 
-   The controller of the Go executor performs one action at a time (start a call on
-   an idle client, release one parked callback, deliver a tick, advance the clock)
-   and then waits until every goroutine is blocked.  What the goroutines do in
-   between is not controlled, so the model side follows ALL interleavings of the
-   uncontrolled ("internal") atomic actions: [agrees] keeps the set of quiescent
-   model states compatible with everything observed so far and demands that it never
-   becomes empty (the observed log is a trace of the LTS). *)
+   The controller of the Go executor runs SEVERAL executor instances at once and performs one
+   action at a time (start a call on an idle client of one instance, release one parked callback,
+   deliver a tick, advance the shared clock, proc.Shutdown()) and then waits until every goroutine
+   is blocked; it then records every instance.  A [case] is the list of the per-instance logs
+   (an action on another instance appears as [ANop]: nothing may change here).  What the
+   goroutines do in between is not controlled, so the model side follows ALL interleavings of the
+   uncontrolled ("internal") atomic actions: [agrees] keeps, per instance, the set of quiescent
+   model states compatible with everything observed so far and demands that it never becomes
+   empty (the observed log is a trace of the LTS).  [prop_ok] judges the property on the log
+   alone; it includes that a batch reads the same when its callback returns as when it started. *)
 From Coq Require Import List ZArith Bool Orders Sorting.Mergesort FMapPositive.
 From GZ Require Export Lib.CheckLib C11.Model.
 Import ListNotations.
